@@ -193,7 +193,11 @@ func (c *packetConn) getWriteHandler(b []byte, to net.Addr, cb AsyncWriteCallbac
 }
 
 func (c *packetConn) Close() error {
-	atomic.StoreUint32(&c.closed, 1)
+	if !atomic.CompareAndSwapUint32(&c.closed, 0, 1) {
+		// Already closed: the descriptor number may belong to someone else by now.
+		return io.EOF
+	}
+
 	_ = c.ioc.UnsetReadWrite(&c.slot)
 	c.ioc.Deregister(&c.slot)
 	return syscall.Close(c.slot.Fd)
